@@ -6,6 +6,7 @@ import (
 	"fmt"
 	"go/token"
 	"go/types"
+	"sort"
 	"strings"
 
 	"golang.org/x/tools/go/ssa"
@@ -372,10 +373,132 @@ func (fc *FnCtx) doAlloc(a *ssa.Alloc) {
 		fc.vals[a] = Val{P: &Place{Kind: PCell, Var: name, Type: et}}
 		return
 	}
+	if name, ok := fc.eng.sharedCell(a); ok {
+		fc.stateVar(name, u.SortOf(et), false)
+		fc.assign(name, u.Zero(et))
+		delete(fc.env.places, name)
+		fc.vals[a] = Val{P: &Place{Kind: PCell, Var: name, Type: et}}
+		return
+	}
 	r := fc.newRef()
 	p := fc.placeOfPtr(r, et)
 	fc.storePlace(p, u.Zero(et))
 	fc.vals[a] = Val{P: p}
+}
+
+// sharedCell: a local variable captured by closures whose address never
+// escapes otherwise is modelled as a named cell shared between the function
+// and its closures (instead of an anonymous heap location).
+var sharedMemo = map[ssa.Value]string{}
+
+func (e *Engine) sharedCell(v ssa.Value) (string, bool) {
+	if n, ok := sharedMemo[v]; ok {
+		return n, n != ""
+	}
+	sharedMemo[v] = ""
+	root := v
+	// resolve free variables to the allocation they are bound to
+	for {
+		fv, ok := root.(*ssa.FreeVar)
+		if !ok {
+			break
+		}
+		fn := fv.Parent()
+		idx := -1
+		for i, x := range fn.FreeVars {
+			if x == fv {
+				idx = i
+			}
+		}
+		parent := fn.Parent()
+		if parent == nil || idx < 0 {
+			return "", false
+		}
+		var next ssa.Value
+		for _, b := range parent.Blocks {
+			for _, in := range b.Instrs {
+				if mc, ok := in.(*ssa.MakeClosure); ok && mc.Fn == fn {
+					if next != nil && next != mc.Bindings[idx] {
+						return "", false
+					}
+					next = mc.Bindings[idx]
+				}
+			}
+		}
+		if next == nil {
+			return "", false
+		}
+		root = next
+	}
+	a, ok := root.(*ssa.Alloc)
+	if !ok || !a.Heap {
+		return "", false
+	}
+	if n, ok := sharedMemo[a]; ok && a != v {
+		sharedMemo[v] = n
+		return n, n != ""
+	}
+	if !e.addrPrivate(a, map[ssa.Value]bool{}) {
+		return "", false
+	}
+	line := 0
+	if e.Fset != nil && a.Pos().IsValid() {
+		line = e.Fset.Position(a.Pos()).Line
+	}
+	c := a.Comment
+	if c == "" {
+		c = "tmp"
+	}
+	name := fmt.Sprintf("sc_%s_%s_L%d", mangle(c), a.Name(), line)
+	sharedMemo[a] = name
+	sharedMemo[v] = name
+	return name, true
+}
+
+// addrPrivate: the address held in v is only loaded from, stored to, or
+// captured by closures in which the same holds.
+func (e *Engine) addrPrivate(v ssa.Value, seen map[ssa.Value]bool) bool {
+	if seen[v] {
+		return true
+	}
+	seen[v] = true
+	refs := v.Referrers()
+	if refs == nil {
+		return false
+	}
+	for _, r := range *refs {
+		switch x := r.(type) {
+		case *ssa.DebugRef:
+		case *ssa.UnOp:
+			if x.Op != token.MUL {
+				return false
+			}
+		case *ssa.Store:
+			if x.Val == v {
+				return false
+			}
+		case *ssa.FieldAddr:
+			if !e.addrPrivate(x, seen) {
+				return false
+			}
+		case *ssa.IndexAddr:
+			if !e.addrPrivate(x, seen) {
+				return false
+			}
+		case *ssa.MakeClosure:
+			fn := x.Fn.(*ssa.Function)
+			for i, b := range x.Bindings {
+				if b == v {
+					if !e.addrPrivate(fn.FreeVars[i], seen) {
+						return false
+					}
+				}
+			}
+		default:
+			return false
+		}
+	}
+	return true
 }
 
 func (fc *FnCtx) doUnOp(x *ssa.UnOp) {
@@ -395,7 +518,7 @@ func (fc *FnCtx) doUnOp(x *ssa.UnOp) {
 			}
 		}
 		var t Term
-		if fc.volatile != nil && p.Kind != PCell && p.Kind != PGlobal && fc.isVolatilePlace(p) {
+		if fc.volatile != nil && p.Kind != PGlobal && (p.Kind != PCell || strings.HasPrefix(p.Var, "sc_")) && fc.isVolatilePlace(p) {
 			t = fc.freshConst("volatile", u.SortOf(x.Type()))
 			fc.abstractedNote("reads of memory written by a spawned goroutine are unconstrained")
 		} else {
@@ -472,6 +595,64 @@ func (fc *FnCtx) doStore(x *ssa.Store) {
 		}
 	}
 	fc.storePlace(p, vv.T)
+	fc.assignAnchors(x)
+}
+
+// assignAnchors runs "at assign v#k" clauses after the k-th store (in source
+// order) to the local variable v.
+func (fc *FnCtx) assignAnchors(x *ssa.Store) {
+	if fc.contract == nil || len(fc.contract.Asserts) == 0 {
+		return
+	}
+	a, ok := x.Addr.(*ssa.Alloc)
+	if !ok || a.Comment == "" {
+		return
+	}
+	if fc.storeOrd == nil {
+		fc.storeOrd = map[*ssa.Store]int{}
+		byVar := map[*ssa.Alloc][]*ssa.Store{}
+		for _, b := range fc.fn.Blocks {
+			for _, in := range b.Instrs {
+				if st, ok := in.(*ssa.Store); ok {
+					if al, ok := st.Addr.(*ssa.Alloc); ok && al.Comment != "" {
+						if _, isParam := st.Val.(*ssa.Parameter); isParam {
+							continue
+						}
+						byVar[al] = append(byVar[al], st)
+					}
+				}
+			}
+		}
+		for _, sts := range byVar {
+			sort.SliceStable(sts, func(i, j int) bool { return sts[i].Pos() < sts[j].Pos() })
+			for i, st := range sts {
+				fc.storeOrd[st] = i + 1
+			}
+		}
+	}
+	ord := fc.storeOrd[x]
+	for _, aa := range fc.contract.Asserts {
+		if aa.Anchor != "assign" || aa.Var != a.Comment || aa.Ord != ord {
+			continue
+		}
+		// several variables may share a name; the clause applies to the one visible at this store
+		if al := fc.localAlloc(a.Comment, x.Pos()); al != nil && al != a {
+			continue
+		}
+		aa.Matched++
+		sc := fc.funcScope(fc.env, fc.entryEnv, nil)
+		sc.pos = x.Pos()
+		sc.mode = "site"
+		if aa.Set != nil {
+			t, _ := sc.tr(aa.Set.E)
+			if _, ok := fc.ghostTypes[aa.Set.Name]; !ok {
+				fc.fail("set of undeclared ghost %s", aa.Set.Name)
+			}
+			fc.assign("g_"+aa.Set.Name, t)
+		} else {
+			fc.assert("assert", fmt.Sprintf("%s:assign(%s)#%d.assert#%d", fc.name, aa.Var, aa.Ord, aa.Cl.N), sc.trBool(aa.Cl.E), aa.Cl.Src, x.Pos(), false)
+		}
+	}
 }
 
 func (fc *FnCtx) boundsCheck(idx, ln Term, pos token.Pos) {
@@ -527,7 +708,9 @@ func (fc *FnCtx) doSlice(x *ssa.Slice) {
 		mem := fc.memVar(at.Elem())
 		fc.assign(mem, Store(fc.lookup(mem), r, arrv))
 		full := T(SSlice, "(mkslice %s 0 %d %d)", r.S, at.Len(), at.Len())
-		fc.warn("slice of array: later writes through the slice are not reflected in the array")
+		if a, ok := x.X.(*ssa.Alloc); !ok || (a.Comment != "varargs" && a.Comment != "slicelit" && a.Comment != "makeslice") {
+			fc.warn("slice of array: later writes through the slice are not reflected in the array")
+		}
 		fc.vals[x] = TV(fc.sliceOfSlice(full, lo, hi, mx, x.Pos(), true))
 	default:
 		fc.fail("slice of %s", x.X.Type())
@@ -879,7 +1062,7 @@ func (fc *FnCtx) doLookup(x *ssa.Lookup) {
 			k = fc.box(x.Index.Type(), k)
 		}
 		dom, val, _ := fc.mapVars(xt)
-		has := Select(Select(fc.lookup(dom), m), k)
+		has := And(T(SBool, "(not (= %s 0))", m.S), Select(Select(fc.lookup(dom), m), k))
 		v := Ite(has, Select(Select(fc.lookup(val), m), k), u.Zero(xt.Elem()))
 		r := fc.freshConst(x.Name(), u.SortOf(xt.Elem()))
 		fc.assume(Eq(r, v))
@@ -1043,6 +1226,7 @@ func (fc *FnCtx) doSelect(x *ssa.Select) {
 }
 
 func (fc *FnCtx) doGo(x *ssa.Go) {
+	fc.volatile = fc.volatileSet
 	fc.abstractedNote("go statement: the spawned body is not part of this function's proof; memory it may write is treated as volatile")
 }
 
